@@ -10,7 +10,7 @@ from . import _c04_flow as fl
 
 ID = 'C08'
 BASE = 'mitxgraders/baseclasses.py'
-FILES = [BASE]
+FILES = [BASE, 'mitxgraders/formulagrader/matrixgrader.py']
 
 EXPLANATION = (
     'Structural rules on ItemGrader.check after inlining of newly extracted helpers (one helper that hosts the '
@@ -117,6 +117,36 @@ def _locate_host(idx, fi):
     return h, pa[0], hin, bound
 
 
+def _check_override(r, idx, ci):
+    """An override of check() wraps the WHOLE loop over the alternatives.  Error-to-result conversions belong inside the
+    per-alternative call (check_response or below): a try/except around super().check(...) whose handler returns a result
+    makes the first alternative that raises decide the submission, short-circuiting the max over the alternatives."""
+    f = ci.methods['check']
+    name = ci.qualname + '.check'
+    supers = [c for c in lib.calls_named(f.node, 'check') if isinstance(c.func, ast.Attribute) and isinstance(c.func.value, ast.Call)
+              and nf.callee_name(c.func.value) == 'super']
+    reported = False
+    for c in supers:
+        for tr in lib.enclosing_trys(c):
+            for h in tr.handlers:
+                for p in nf.decision_paths(h.body):
+                    if p.leaf.kind == 'ret' and not (isinstance(p.leaf.expr, ast.Constant) and p.leaf.expr.value is None):
+                        r.violation(name, 'the override wraps the whole loop over the alternatives (`%s`) in a try whose `except %s` handler '
+                                    'returns the result `%s`: the first alternative whose comparison raises aborts the loop, so an input that '
+                                    'earns credit against ANOTHER alternative is graded with this result instead of the best one; such '
+                                    'error-to-result conversions must sit inside the per-alternative call (check_response)'
+                                    % (short(c, 60), '/'.join(lib.handler_class_names(h)), short(p.leaf.expr, 60)), lib.loc(f, h),
+                                    expected='try/except inside check_response')
+                        reported = True
+                        break
+                if reported:
+                    break
+            if reported:
+                break
+    if not reported:
+        r.undecided(name, 'unreviewed override of ItemGrader.check', f.loc)
+
+
 def d1_loops(ctx, idx):
     r = ctx.rule('D1.LOOPFULL', 'every alternative and every entry of its expect tuple is checked, one result each', floor=7)
     info = Info()
@@ -126,7 +156,7 @@ def d1_loops(ctx, idx):
         # no subclass re-implements check
         for ci in idx.family(ITEM):
             if ci.qualname != ITEM and 'check' in ci.methods:
-                r.undecided(ci.qualname + '.check', 'unreviewed override of ItemGrader.check', ci.methods['check'].loc)
+                _check_override(r, idx, ci)
         hfi, p_answers, p_input, bound = _locate_host(idx, fi)
         info.host = hfi
         hself = hfi.params[0] if hfi.cls is not None and not hfi.is_static and hfi.params else fi.params[0]
@@ -1022,6 +1052,9 @@ MUTANTS = [
            "        best_result_with_longest_msg = results[0]\n        for result in results[1:]:\n            best = best_result_with_longest_msg\n            if result['grade_decimal'] > best['grade_decimal'] or (result['grade_decimal'] == best['grade_decimal'] and len(result['msg']) < len(best['msg'])):\n                best_result_with_longest_msg = result\n        best_score = best_result_with_longest_msg['grade_decimal']\n", 'D2'),
     Mutant('seeded-wrong-msg-reads-ok-flag', BASE, "        if best_result_with_longest_msg['msg'] == \"\" and best_score == 0:",
            "        if best_result_with_longest_msg['msg'] == \"\" and not best_result_with_longest_msg['ok']:", 'D3'),
+    Mutant('seeded-matrix-errors-handled-per-submission', 'mitxgraders/formulagrader/matrixgrader.py',
+           "    def check_response(self, answer, student_input, **kwargs):\n        try:\n            with MathArray.enable_negative_powers(self.config['negative_powers']):\n                result = super(MatrixGrader, self).check_response(answer, student_input, **kwargs)",
+           "    def check(self, answers, student_input, **kwargs):\n        try:\n            with MathArray.enable_negative_powers(self.config['negative_powers']):\n                result = super(MatrixGrader, self).check(answers, student_input, **kwargs)", 'D1'),
     Mutant('copy-dropped', BASE, "            answercopy = answer.copy()\n", "            answercopy = answer\n", 'D4'),
     Mutant('narrow-in-place', BASE, "                answercopy['expect'] = entry\n" + _LOOP,
            "                answer['expect'] = entry\n                result = self.check_response(answer, student_input, **kwargs)\n                results.append(result)\n", 'D4'),
